@@ -971,3 +971,22 @@ _REPARENT = (TI + "namespace.py", "    namespace.content = instantiated_content\
 TABLE["C04"] += [B("rebuilt-content-reparented", {"B8"}, _REPARENT)]
 TABLE["C13"] += [B("rebuilt-content-reparented", {"P1"}, _REPARENT)]
 TABLE["C01"] += [B("rebuilt-content-reparented", {"G8"}, _REPARENT)]
+_MEMO_INIT = (IP + "namespace.py", "        for child in self.content:\n            child.parent = self\n",
+              "        for child in self.content:\n            child.parent = self\n        self._resolved = {}\n")
+_MEMO_STORE_NAME = (IP + "namespace.py", "        else:\n            return res[0]\n", "        else:\n            self._resolved[typename.name] = res[0]\n            return res[0]\n")
+_MEMO_STORE_QUAL = (IP + "namespace.py", "        else:\n            return res[0]\n", "        else:\n            self._resolved[typename.qualified_name()] = res[0]\n            return res[0]\n")
+_MEMO_READ_NAME = (IP + "namespace.py", "        found_namespaces = find_sub_namespace(self, typename.namespaces)\n",
+                   "        if typename.name in self._resolved:\n            return self._resolved[typename.name]\n        found_namespaces = find_sub_namespace(self, typename.namespaces)\n")
+_MEMO_READ_QUAL = (IP + "namespace.py", "        found_namespaces = find_sub_namespace(self, typename.namespaces)\n",
+                   "        if typename.qualified_name() in self._resolved:\n            return self._resolved[typename.qualified_name()]\n        found_namespaces = find_sub_namespace(self, typename.namespaces)\n")
+TABLE["C07"] += [
+    B("typedef-lookup-memo-keyed-by-bare-name", {"V6"}, _MEMO_INIT, _MEMO_STORE_NAME, _MEMO_READ_NAME),
+    N("typedef-lookup-memo-keyed-by-qualified-name", _MEMO_INIT, _MEMO_STORE_QUAL, _MEMO_READ_QUAL),
+    B("typedef-lookup-returns-first-candidate-unchecked", {"V6"},
+      (IP + "namespace.py", "        if not res:\n            raise ValueError(\"Cannot find class {} in module!\".format(\n                typename.name))\n        elif len(res) > 1:",
+       "        if res and res[0].name == typename.name:\n            return res[0]\n        if not res:\n            raise ValueError(\"Cannot find class {} in module!\".format(\n                typename.name))\n        elif len(res) > 1:")),
+]
+TABLE["C07"] += [
+    B("include-header-may-span-lines", {"V7"}, (IP + "declaration.py", "CharsNotIn('>\\n')(\"header\")", "CharsNotIn('>')(\"header\")")),
+    N("include-header-also-excludes-quotes", (IP + "declaration.py", "CharsNotIn('>\\n')(\"header\")", "CharsNotIn('>\"\\n')(\"header\")")),
+]
